@@ -333,6 +333,11 @@ Definition opOr_u32 (x a : Z) : Z := let res := ctor_copy x in opOrEq_u32 res a.
 Definition opAnd_u64 (x a : Z) : Z := and_u64 (mpz_get_ui x) a.
 (*@ opAnd_u32 | src/kernel/gmp++/gmp++_int_misc.C | uint32_t Integer::operator& (const uint32_t& a) const | 5ff2909980ab *)
 Definition opAnd_u32 (x a : Z) : Z := to_u32 (and_u64 (mpz_get_ui x) (u32_to_u64 a)).
+(* the repaired bodies (frag/C01.fix-3.diff): the low limb is negated (mod 2^64) for a negative x *)
+Definition opAnd_u64_fixed (x a : Z) : Z :=
+  let low := mpz_get_ui x in and_u64 (if priv_sign x <? 0 then neg_u64 low else low) a.
+Definition opAnd_u32_fixed (x a : Z) : Z :=
+  let low := mpz_get_ui x in to_u32 (and_u64 (if priv_sign x <? 0 then neg_u64 low else low) (u32_to_u64 a)).
 (*@ opNot | src/kernel/gmp++/gmp++_int_misc.C | Integer Integer::operator~ () const | 5bdec9596729 *)
 Definition opNot (x : Z) : Z := mpz_com x.
 
